@@ -40,6 +40,9 @@ func (frame *RstStreamFrame) write(f *Framer) (err error) {
 	if frame.StreamId == 0 {
 		return &Error{ZeroStreamId, 0}
 	}
+	if frame.Status == 0 {
+		return &Error{InvalidControlFrame, frame.StreamId}
+	}
 	frame.CFHeader.version = Version
 	frame.CFHeader.frameType = TypeRstStream
 	frame.CFHeader.Flags = 0
@@ -51,9 +54,6 @@ func (frame *RstStreamFrame) write(f *Framer) (err error) {
 	}
 	if err = binary.Write(f.w, binary.BigEndian, frame.StreamId); err != nil {
 		return
-	}
-	if frame.Status == 0 {
-		return &Error{InvalidControlFrame, frame.StreamId}
 	}
 	if err = binary.Write(f.w, binary.BigEndian, frame.Status); err != nil {
 		return
